@@ -210,6 +210,144 @@ def showEpoch (e : Epoch) : String :=
 def parseOpts (s : String) : DemoOpts :=
   { fixedBroadcast := s.contains 'b', fixedWindowEnd := s.contains 'w', splitSpec := s.contains 's' }
 
+
+/-! ## cache / infer / validate commands (properties C17, C19, C20) -/
+
+def showListOr {α} (f : α → String) (sep : String) (l : List α) : String :=
+  if l.isEmpty then "-" else sep.intercalate (l.map f)
+
+/-- `u<id>` | `s` | `d` | `c` | `t` -/
+def parseCacheOp? (t : String) : Option (Cache.Op Nat) :=
+  if t == "s" then some .getS
+  else if t == "d" then some .dropS
+  else if t == "c" then some .dropCache
+  else if t == "t" then some .touchStates
+  else if t.startsWith "u" then (t.drop 1).toString.toNat?.map Cache.Op.updateEpoch
+  else none
+
+/-- `cache <useCache 0|1> <initial epoch id> <ops…>` →
+`<epoch id of the matrix returned by each s, space separated> | <cache keys in insertion order> | <computations>`
+(empty lists are printed as `-`) -/
+def handleCache (uc e0 : String) (ops : List String) : Option String := do
+  let uc ← if uc == "1" then some true else if uc == "0" then some false else none
+  let e0 ← e0.toNat?
+  let ops ← ops.mapM parseCacheOp?
+  let (s, ans) := Cache.run (fun (e : Nat) => e) (Cache.State.init e0 uc) ops
+  let answers := ans.filterMap id
+  let keys := s.cache.map (·.1)
+  return s!"{showListOr toString " " answers} | {showListOr toString "," keys} | {s.computations}"
+
+/-- `<loss>:<x1,x2,…>` -/
+def parseRun? (t : String) : Option Inference.Run :=
+  match t.splitOn ":" with
+  | [f, x] => match parseRat? f, parseList? parseRat? x with
+    | some f, some x => some { x := x, f := f }
+    | _, _ => none
+  | _ => none
+
+/-- ops: `r<k> <f1>:<x1> … <fk>:<xk>` (`_run` with k optimiser results) | `a<j>` (`add_run` of a fresh
+object on which the j-th (0-based) earlier `r` op was run) | `an` (`add_run` of a never-run object) |
+`b <x1,x2,…>` (`add_bootstrap(dict)`) | `B<j>` / `Bn` (`add_bootstrap(Inference)`). -/
+partial def parseInferOps? (seen : List (List Inference.Run)) :
+    List String → Option (List Inference.Op)
+  | [] => some []
+  | t :: rest =>
+    if t == "b" then
+      match rest with
+      | x :: rest' => do
+        let x ← parseList? parseRat? x
+        let tl ← parseInferOps? seen rest'
+        return .bootDict x :: tl
+      | [] => none
+    else if t == "an" then (parseInferOps? seen rest).map (.addRun none :: ·)
+    else if t == "Bn" then (parseInferOps? seen rest).map (.bootInf none :: ·)
+    else if t.startsWith "r" then do
+      let k ← (t.drop 1).toString.toNat?
+      if rest.length < k then none
+      let rs ← (rest.take k).mapM parseRun?
+      let tl ← parseInferOps? (seen ++ [rs]) (rest.drop k)
+      return .runWith rs :: tl
+    else if t.startsWith "a" then do
+      let j ← (t.drop 1).toString.toNat?
+      let rs ← seen[j]?
+      let tl ← parseInferOps? seen rest
+      return .addRun (some rs) :: tl
+    else if t.startsWith "B" then do
+      let j ← (t.drop 1).toString.toNat?
+      let rs ← seen[j]?
+      let tl ← parseInferOps? seen rest
+      return .bootInf (some rs) :: tl
+    else none
+
+/-- `infer <ops…>` → `loss=<q|none> x=<q,…|none> runs=<q,…|-> rows=<n> err=<0-based indices of ops that raised|->` -/
+def handleInfer (toks : List String) : Option String := do
+  let ops ← parseInferOps? [] toks
+  let (s, errs) := Inference.replay Inference.State.fresh ops
+  let loss := match s.lossInferred with | some q => showRat q | none => "none"
+  let x := match s.paramsInferred with | some x => showListOr showRat "," x | none => "none"
+  return s!"loss={loss} x={x} runs={showListOr showRat "," s.lossRuns} rows={s.bootstraps.length} err={showListOr toString "," errs}"
+
+def parsePair? (t : String) : Option (Rat × Rat) :=
+  match t.splitOn ":" with
+  | [a, b] => match parseRat? a, parseRat? b with
+    | some a, some b => some (a, b)
+    | _, _ => none
+  | _ => none
+
+def parseOptRat? (s : String) : Option (Option Rat) :=
+  if s == "none" then some none else (parseRat? s).map some
+
+def parseQuery? (s : String) : Option Validate.Query :=
+  match s.splitOn ":" with
+  | ["mean"] => some .mean
+  | ["cdf", ts] => (parseList? parseRat? ts).map .cdf
+  | ["acc", k, rl, ts] => match k.toNat?, rl.toNat?, parseList? parseRat? ts with
+    | some k, some rl, some ts => some (.accumulate k rl ts)
+    | _, _, _ => none
+  | ["mom", k, rl, e] => match k.toNat?, rl.toNat?, parseOptRat? e with
+    | some k, some rl, some e => some (.moment k rl e)
+    | _, _, _ => none
+  | ["quant", q] => (parseRat? q).map .quantile
+  | ["mut", len, theta, nep] => match len.toNat?, parseRat? theta, nep.toNat? with
+    | some len, some theta, some nep => some (.mutationConfig len theta nep)
+    | _, _, _ => none
+  | _ => none
+
+def parseBool01? (s : String) : Option Bool :=
+  if s == "1" then some true else if s == "0" then some false else none
+
+/-- one `key=value` token of the `validate` command (encoding: see the top of PGModel/Validate.lean) -/
+def applyValidateToken (acc : Validate.Request × Bool) (t : String) : Option (Validate.Request × Bool) :=
+  let (r, repaired) := acc
+  match t.splitOn "=" with
+  | ["n", v] => v.toNat?.map fun v => ({ r with n := v }, repaired)
+  | ["loci", v] => v.toInt?.map fun v => ({ r with loci := v }, repaired)
+  | ["viacfg", v] => (parseBool01? v).map fun v => ({ r with viaConfig := v }, repaired)
+  | ["unl", v] => v.toInt?.map fun v => ({ r with nUnlinked := v }, repaired)
+  | ["rloc", v] => (parseRat? v).map fun v => ({ r with recLocus := v }, repaired)
+  | ["rarg", v] => (parseOptRat? v).map fun v => ({ r with recArg := v }, repaired)
+  | ["model", "kingman"] => some ({ r with model := .kingman }, repaired)
+  | ["model", "beta"] => some ({ r with model := .beta }, repaired)
+  | ["model", "dirac"] => some ({ r with model := .dirac }, repaired)
+  | ["alpha", v] => (parseRat? v).map fun v => ({ r with alpha := v }, repaired)
+  | ["psi", v] => (parseRat? v).map fun v => ({ r with psi := v }, repaired)
+  | ["c", v] => (parseRat? v).map fun v => ({ r with c := v }, repaired)
+  | ["start", v] => (parseRat? v).map fun v => ({ r with startTime := v }, repaired)
+  | ["end", v] => (parseOptRat? v).map fun v => ({ r with endTime := v }, repaired)
+  | ["sizes", v] => (parseList? parsePair? v).map fun v => ({ r with sizes := v }, repaired)
+  | ["rates", v] => (parseList? parsePair? v).map fun v => ({ r with rates := v }, repaired)
+  | ["dist", "th"] => some ({ r with sfs := false, folded := false }, repaired)
+  | ["dist", "sfs"] => some ({ r with sfs := true, folded := false }, repaired)
+  | ["dist", "fsfs"] => some ({ r with sfs := true, folded := true }, repaired)
+  | ["query", v] => (parseQuery? v).map fun v => ({ r with query := v }, repaired)
+  | ["repaired", v] => (parseBool01? v).map fun v => (r, v)
+  | _ => none
+
+/-- `validate <key=value tokens>` → `ok` | `ValueError` | `NotImplementedError` -/
+def handleValidate (toks : List String) : Option String := do
+  let (r, repaired) ← toks.foldlM applyValidateToken (({} : Validate.Request), true)
+  return Validate.showRes (Validate.validateWith repaired r)
+
 def handle (c : Ctx) (line : String) : Ctx × String :=
   let toks := (line.trimAscii.toString.splitOn " ").filter (· != "")
   let bad := (c, "bad-request")
@@ -400,6 +538,18 @@ def handle (c : Ctx) (line : String) : Ctx × String :=
   | ["argsort", ts] =>
     match parseList? parseRat? ts with
     | some ts => (c, showNats (argsort ts) ++ " " ++ showNats (argsortNat (argsort ts)))
+    | none => bad
+  | "cache" :: uc :: e0 :: ops =>
+    match handleCache uc e0 ops with
+    | some ans => (c, ans)
+    | none => bad
+  | "infer" :: ops =>
+    match handleInfer ops with
+    | some ans => (c, ans)
+    | none => bad
+  | "validate" :: toks =>
+    match handleValidate toks with
+    | some ans => (c, ans)
     | none => bad
   | ["selftest"] =>
     -- exp of a nilpotent matrix is exact; exp(A)·exp(A) = exp(2A); rows of exp(Q) sum to one
